@@ -14,8 +14,21 @@ VARIANTS = ("main", "gmpxx", "boostmp")
 EXPECT_NAME = {"main": "gmp", "gmpxx": "gmpxx", "boostmp": "boostmp"}
 
 
+# Sensitivity runs against a scratch tree (VERIF_REPO + VERIF_BUILD_TAG) may name the variants that
+# come from the tagged scratch build (VERIF_SCRATCH_VARIANTS=boostmp); the others use the regular
+# builds of /repo (mutations inside `#if SYMENGINE_INTEGER_CLASS == SYMENGINE_BOOSTMP` code cannot
+# change the gmp builds, and a full scratch build of all three variants takes > 30 min).
+_TAG = os.environ.get("VERIF_BUILD_TAG", "")
+_SCRATCH = [v for v in os.environ.get("VERIF_SCRATCH_VARIANTS", "").split(",") if v] if _TAG else []
+
+
 class PDriver(Driver):
     """Driver with the request split into send / receive so that the three backends work concurrently"""
+
+    def __init__(self, variant, exe, timeout):
+        Driver.__init__(self, variant, exe, timeout)
+        if _SCRATCH and variant not in _SCRATCH:
+            self.path = os.path.join(engine.BUILD, variant, "drv", exe)
 
     def send(self, program):
         if self.p is None:
@@ -81,7 +94,7 @@ def _short(x, n=300):
 class C43(Check):
     pid = "C43"
     exe = "driver_backend"
-    builds = [("main", ("driver_backend",)), ("gmpxx", ("driver_backend",)), ("boostmp", ("driver_backend",))]
+    builds = [(v, ("driver_backend",)) for v in VARIANTS if not _SCRATCH or v in _SCRATCH]
     rule = ("A case is a list of 1-5 items; an item is (family, operands) and compiles to 3-25 statements of exact "
             "computations: floor/ceil/trunc division family and its aliasing forms, gcd/lcm/extended gcd/modular "
             "inverse, Legendre/Jacobi/Kronecker, integer roots with exactness flag and remainder, perfect power / "
